@@ -195,7 +195,7 @@ type Result struct {
 	SetupErr        string     `json:"setup_err,omitempty"`
 	Run1            ProcObs    `json:"run1"`
 	WorkloadStartUs int64      `json:"workload_start_us"`
-	TriggerUs       int64      `json:"trigger_us"` // -1: the awaited acknowledgement / change never came (kill at max_ms)
+	TriggerUs       int64      `json:"trigger_us"`   // -1: the awaited acknowledgement / change never came (kill at max_ms)
 	TriggerSize     int64      `json:"trigger_size"` // on_change: size of the state file as seen at the trigger
 	KillBeforeUs    int64      `json:"kill_before_us"`
 	KillAfterUs     int64      `json:"kill_after_us"`
